@@ -30,6 +30,7 @@ static DBusConnection *cl[NCLIENT + 1];
 static char uniq[NCLIENT + 1][64];
 static DBusList *inbox[NCLIENT + 1];
 static int connected[NCLIENT + 1];
+static dbus_uint32_t lastcall[NCLIENT + 1];     /* serial of the client's last call (for "reply") */
 
 static int hexv (int c) { return c <= '9' ? c - '0' : (c | 32) - 'a' + 10; }
 static char *unhex (const char *h)
@@ -225,9 +226,22 @@ int main (int argc, char **argv)
       else if (!strcmp (kind, "sig"))
         { char *v = unhex (a3); m = dbus_message_new_signal ("/a", a1, a2); dbus_message_append_args (m, DBUS_TYPE_STRING, &v, DBUS_TYPE_INVALID); free (v); }
       else if (!strcmp (kind, "call"))
-        { m = dbus_message_new_method_call (a1, "/a", "com.example.I", a2); }
+        { m = dbus_message_new_method_call (a1[0] == '@' ? uniq[atoi (a1 + 1)] : a1, "/a", "com.example.I", a2); }
+      else if (!strcmp (kind, "reply"))
+        { /* answer the last call of client a1 */
+          m = dbus_message_new (DBUS_MESSAGE_TYPE_METHOD_RETURN);
+          dbus_message_set_destination (m, uniq[atoi (a1)]);
+          dbus_message_set_reply_serial (m, lastcall[atoi (a1)]);
+          dbus_message_set_no_reply (m, TRUE); }
+      else if (!strcmp (kind, "drop"))
+        { /* the client goes away without a word */
+          dbus_connection_close (cl[c]); dbus_connection_unref (cl[c]); cl[c] = NULL;
+          drain_all ();
+          emit_round (c, "{\"k\":\"aclose\",\"waseof\":false,\"oom\":false}");
+          continue; }
       else continue;
       if (!dbus_connection_send (cl[c], m, &ser)) abort ();
+      if (!strcmp (kind, "call")) lastcall[c] = ser;
       /* the request reaches the bus with injection off ... */
       bus_test_run_clients_loop (FALSE);
       /* ... the bus handles it with the (k+1)-th allocation failing ... */
@@ -242,7 +256,7 @@ int main (int argc, char **argv)
         int off = 0, j;
         if (!strcmp (kind, "hello") && !connected[c]++) off += snprintf (op + off, sizeof op - off, "{\"k\":\"connect\",\"uid\":0,\"fdcap\":false,\"oom\":false},");
         off += snprintf (op + off, sizeof op - off, "{\"k\":\"%s\",\"ser\":%u,\"fl\":%d,\"oom\":%s,\"allocs\":%d",
-                         !strcmp (kind, "list") ? "query" : !strcmp (kind, "sig") || !strcmp (kind, "call") ? "send" : kind, ser,
+                         !strcmp (kind, "list") ? "query" : !strcmp (kind, "sig") || !strcmp (kind, "call") || !strcmp (kind, "reply") ? "send" : kind, ser,
                          (dbus_message_get_no_reply (m) ? 1 : 0) | (dbus_message_get_auto_start (m) ? 0 : 2), k >= 0 ? "true" : "false", counted);
         if (!strcmp (kind, "hello"))
           {
@@ -277,7 +291,7 @@ int main (int argc, char **argv)
             const char *f[6]; int q;
             f[0] = dbus_message_get_destination (m); f[1] = dbus_message_get_path (m); f[2] = dbus_message_get_interface (m);
             f[3] = dbus_message_get_member (m); f[4] = NULL; f[5] = dbus_message_get_signature (m);
-            off += snprintf (op + off, sizeof op - off, ",\"ty\":%d,\"rs\":0,\"nfd\":0,\"att\":[],\"fsnd\":[]", dbus_message_get_type (m));
+            off += snprintf (op + off, sizeof op - off, ",\"ty\":%d,\"rs\":%u,\"nfd\":0,\"att\":[],\"fsnd\":[]", dbus_message_get_type (m), dbus_message_get_reply_serial (m));
             for (q = 0; q < 6; q++)
               {
                 static const char *nm[] = { "dst", "path", "ifc", "mem", "err", "sig" };
